@@ -8,16 +8,36 @@ open IGVerif
     function of that group and the outside only) -/
 theorem group_statement (outside : PStmt) (g : Stmt) :
     denoteG outside (.grp g) = .pairs {} [.stmt {} (mergeStmt (denoteS g) outside)] := by
-  simp [denoteG]
+  cases g with
+  | mk ps => simp [denoteG, groupsG, denoteS]
 
 /-- the expanded statements are linked by exactly the written operator tree -/
 theorem linked_by_written_tree (outside : PStmt) (o : Op3) (l r : GTree) :
     denoteG outside (.op o l r) = .comb o.str [] [] {} [] (denoteG outside l) (denoteG outside r) := by
-  simp [denoteG]
+  simp [denoteG, groupsG]
 
 /-- without a pair expression nothing is expanded -/
 theorem no_pairs_single_statement (s : Stmt) (h : firstPairs s.parts = none) :
     denoteTop s = .stmt {} (denoteS s) := by
   simp [denoteTop, h]
+
+/-- the same expansion inside a nested statement: the nested component's value is the tree of
+    the expanded statements (each complete: group merged with everything written outside the
+    braces of that nested statement), its root carrying the component's header -/
+theorem expansion_inside_nested_statement (h : Hdr) (ips : List Part) (pn : PNode)
+    (hp : pairsIn (denoteS (.mk ips)) ips = some pn) :
+    nestedNode h (.mk ips) = pn.withMeta (hdrMeta h) := by
+  simp only [denoteS] at hp
+  simp [nestedNode, hp]
+
+/-- a nested statement without a pair combination is a plain statement -/
+theorem nested_without_pairs (h : Hdr) (ips : List Part) (hp : pairsIn (denoteS (.mk ips)) ips = none) :
+    nestedNode h (.mk ips) = .stmt (hdrMeta h {}) (denoteS (.mk ips)) := by
+  simp only [denoteS] at hp
+  simp [nestedNode, hp, denoteS]
+
+theorem pairsIn_first (outside : PStmt) (t : GTree) (ps : List Part) :
+    pairsIn outside (.pairs t :: ps) = some (denoteG outside t) := by
+  simp [pairsIn, denoteG]
 
 end IGVerif.C03
